@@ -48,4 +48,12 @@ def pipeline_schema(hooks=None):
         "objs": GraphQLField(GraphQLList(GraphQLNonNull(Obj)), resolve=res("objs", [{}, {}])),
         "nn": GraphQLField(GraphQLNonNull(GraphQLInt), resolve=res("nn", 1)),
     })
-    return GraphQLSchema(Query, types=[Obj, Inp, One, Color])
+    Mutation = GraphQLObjectType("Mutation", {
+        "m": GraphQLField(GraphQLInt, resolve=res("m", 1)),
+        "mobj": GraphQLField(Obj, resolve=res("mobj", {})),
+    })
+    Subscription = GraphQLObjectType("Subscription", {
+        "s": GraphQLField(GraphQLInt, resolve=res("s", 1)),
+        "sobj": GraphQLField(Obj, resolve=res("sobj", {})),
+    })
+    return GraphQLSchema(Query, Mutation, Subscription, types=[Obj, Inp, One, Color])
